@@ -90,6 +90,13 @@ where
     | 0, _ => after ()
     | n + 1, i => body i (fun _ => go n (i + 1))
 
+/-- `for cond { body }` with the loop state `σ` (the outer variables the body assigns): `body s next` returns or goes on
+with `next s'`; `after s` is what follows the loop; `fuel` bounds the iterations — running out answers `oob`, which the
+safety theorems show unreachable (the loops translated here consume their input) -/
+def whileLoop {σ α : Type} (cond : σ → Bool) (body : σ → (σ → Chk α) → Chk α) (after : σ → Chk α) : Nat → σ → Chk α
+  | 0, _ => .oob
+  | n + 1, s => if cond s then body s (fun s' => whileLoop cond body after n s') else after s
+
 /-- Go `error` values of the translated functions -/
 inductive Err where
   | nil
@@ -100,6 +107,8 @@ inductive Err where
   | stream (code : Int)      -- StreamError
   | other
 deriving Repr, DecidableEq
+
+instance : Inhabited Err := ⟨.nil⟩
 
 /-- `api.MatchResult` -/
 inductive MR where
